@@ -2185,4 +2185,334 @@ theorem san_plain_aux : ∀ (d : Nat) (v : Val), v.depth ≤ d → v.plain = tru
 
 theorem san_plain (v : Val) (h : v.plain = true) : v.san = v := san_plain_aux v.depth v (Nat.le_refl _) h
 
+/-! ### the decoders against the independent line grammar -/
+
+theorem findCrlf2_eq_firstCrlf : ∀ bs : Bytes, findCrlf2 bs = firstCrlf bs := by
+  intro bs
+  induction bs with
+  | nil => simp [findCrlf2, firstCrlf]
+  | cons a rest ih =>
+    cases rest with
+    | nil => simp [findCrlf2, firstCrlf]
+    | cons b r =>
+      unfold findCrlf2
+      unfold firstCrlf at ih ⊢
+      simp only [List.tail_cons, List.zip_cons_cons, List.findIdx?_cons]
+      by_cases h : a = 13 ∧ b = 10
+      · simp [h.1, h.2]
+      · have h' : (a == 13 && b == 10) = false := by
+          simp only [Bool.and_eq_false_iff, beq_eq_false_iff_ne]
+          by_cases ha : a = 13
+          · right; intro hb; exact h ⟨ha, hb⟩
+          · left; exact ha
+        simp only [h, if_false, h', Bool.false_eq_true]
+        rw [ih]
+        simp [List.tail_cons]
+
+/-- the decoder searches lines as the grammar says -/
+def Codec.Grammar (c : Codec) : Prop := c.findCrlf = findCrlf2
+
+theorem firstCrlf_take (bs : Bytes) (p : Nat) (h : firstCrlf bs = some p) : firstCrlf (bs.take p) = none := by
+  rw [← findCrlf2_eq_firstCrlf] at h ⊢
+  cases hq : findCrlf2 (bs.take p) with
+  | none => rfl
+  | some q =>
+    exfalso
+    have hb := findCrlf2_bound _ _ hq
+    have hst := findCrlf2_stable (bs.take p) (bs.drop p) q hq
+    rw [List.take_append_drop, h] at hst
+    simp at hb hst
+    omega
+
+/-- a `+` / `-` / `:` frame: where its line ends -/
+theorem line_frame (c : Codec) (hg : c.Grammar) (t : Nat) (ht : t ≠ 13) (rest : Bytes) :
+    (c.findCrlf (t :: rest) = none ∧ firstCrlf rest = none) ∨
+    (∃ p, c.findCrlf (t :: rest) = some (p + 1) ∧ firstCrlf rest = some p ∧
+      field (t :: rest) (p + 1) = some (rest.take p) ∧ firstCrlf (rest.take p) = none) := by
+  rw [hg, findCrlf2_skip t rest ht, findCrlf2_eq_firstCrlf]
+  cases h : firstCrlf rest with
+  | none => left; simp
+  | some p =>
+    right
+    refine ⟨p, by simp, rfl, ?_, firstCrlf_take rest p h⟩
+    unfold field
+    simp
+
+theorem parseLine_grammar (c : Codec) (hg : c.Grammar) (mk : Bytes → Val) (t : Nat) (ht : t ≠ 13) (rest : Bytes) :
+    (firstCrlf rest = none ∧ (parseLine c mk (t :: rest)).out = .incomplete .noCrlf) ∨
+    (∃ p, firstCrlf rest = some p ∧ firstCrlf (rest.take p) = none ∧
+      (parseLine c mk (t :: rest)).out = .ok (mk (c.str (rest.take p))) (p + 3)) := by
+  unfold parseLine
+  rcases line_frame c hg t ht rest with ⟨h1, h2⟩ | ⟨p, h1, h2, h3, h4⟩
+  · left; rw [h1]; exact ⟨h2, rfl⟩
+  · right; refine ⟨p, h2, h4, ?_⟩; rw [h1]; simp only [h3]
+
+theorem parseInt_grammar (c : Codec) (hg : c.Grammar) (rest : Bytes) :
+    (firstCrlf rest = none ∧ (parseInt c (58 :: rest)).out = .incomplete .noCrlf) ∨
+    (∃ p, firstCrlf rest = some p ∧ firstCrlf (rest.take p) = none ∧
+      (match parseI64 (rest.take p) with
+       | some n => (parseInt c (58 :: rest)).out = .ok (.int n) (p + 3)
+       | none => (parseInt c (58 :: rest)).out = .error .badInt)) := by
+  unfold parseInt
+  rcases line_frame c hg 58 (by decide) rest with ⟨h1, h2⟩ | ⟨p, h1, h2, h3, h4⟩
+  · left; rw [h1]; exact ⟨h2, rfl⟩
+  · right
+    refine ⟨p, h2, h4, ?_⟩
+    rw [h1]
+    simp only [h3]
+    cases parseI64 (rest.take p) <;> rfl
+
+/-! ### the two decoders agree -/
+
+theorem Val.lossyList_length (a : List Val) : (Val.lossyList a).length = a.length := by
+  induction a with
+  | nil => rfl
+  | cons v vs ih => simp [Val.lossyList, ih]
+
+/-- codec 1 rejected a length that codec 2 accepts (`*-5\r\n`): the one place they differ -/
+def Agree (r1 r2 : Res) : Prop := r1.out.Agrees r2.out ∨ r1.out = .error .badLen
+
+def ElemsAgree (e1 e2 : ElemsOut × List Nat) : Prop :=
+  (match e1.1, e2.1 with
+   | .ok vs1 k1, .ok vs2 k2 => k1 = k2 ∧ vs2 = Val.lossyList vs1
+   | .stop o1, .stop o2 => o1.Agrees o2 ∧ o1.isOk = false
+   | _, _ => False) ∨ e1.1 = .stop (.error .badLen)
+
+theorem elems_agree (p1 p2 : Bytes → Res)
+    (hag : ∀ s, Small s → Agree (p1 s) (p2 s))
+    (hc2 : ∀ s, Small s → ConsumedOK (p2 s) s)
+    (h2nil : (p2 []).out.isIncomplete = true) :
+    ∀ (n : Nat) (rest : Bytes), Small rest → ElemsAgree (elems p1 true n rest) (elems p2 false n rest) := by
+  intro n
+  induction n with
+  | zero => intro rest _; left; simp [elems, Val.lossyList]
+  | succ n ih =>
+    intro rest hs
+    unfold elems
+    by_cases hnil : rest = []
+    · subst hnil
+      simp only [true_and, if_true, Bool.false_eq_true, false_and, if_false]
+      left
+      cases h2 : (p2 []).out with
+      | incomplete k => simp [Outcome.Agrees, Outcome.isOk]
+      | ok v k => simp [h2, Outcome.isIncomplete] at h2nil
+      | error k => simp [h2, Outcome.isIncomplete] at h2nil
+      | crash k => simp [h2, Outcome.isIncomplete] at h2nil
+    · simp only [hnil, and_false, if_false, Bool.false_eq_true, false_and]
+      cases hag rest hs with
+      | inr hbad =>
+        right
+        simp [hbad]
+      | inl hag1 =>
+        cases h1 : (p1 rest).out with
+        | ok v1 k1 =>
+          cases h2 : (p2 rest).out with
+          | ok v2 k2 =>
+            rw [h1, h2] at hag1
+            simp only [Outcome.Agrees] at hag1
+            obtain ⟨hk, hv⟩ := hag1
+            subst hk hv
+            have hk2 := hc2 rest hs _ _ h2
+            simp only []
+            have hgt : ¬ (k1 > rest.length ∧ n ≠ 0 ∧ ¬ True) := by simp
+            have hgt2 : ¬ (k1 > rest.length ∧ n ≠ 0 ∧ ¬ False) := by omega
+            rw [if_neg hgt, if_neg hgt2]
+            have hrec := ih (rest.drop k1) (hs.drop k1)
+            cases he1 : elems p1 true n (rest.drop k1) with
+            | mk e1 a1 =>
+              cases he2 : elems p2 false n (rest.drop k1) with
+              | mk e2 a2 =>
+                rw [he1, he2] at hrec
+                unfold ElemsAgree at hrec ⊢
+                cases e1 with
+                | ok vs1 kk1 =>
+                  cases e2 with
+                  | ok vs2 kk2 =>
+                    simp only [reduceCtorEq, or_false] at hrec
+                    left
+                    simp only []
+                    exact ⟨by rw [hrec.1], by rw [hrec.2]; simp [Val.lossyList]⟩
+                  | stop o2 => simp at hrec
+                | stop o1 =>
+                  cases e2 with
+                  | ok vs2 kk2 =>
+                    cases hrec with
+                    | inl h => simp at h
+                    | inr h => right; simp at h; simp [h]
+                  | stop o2 =>
+                    cases hrec with
+                    | inl h => left; simpa using h
+                    | inr h => right; simp at h; simp [h]
+          | incomplete k => rw [h1, h2] at hag1; simp [Outcome.Agrees] at hag1
+          | error k => rw [h1, h2] at hag1; simp [Outcome.Agrees] at hag1
+          | crash k => rw [h1, h2] at hag1; simp [Outcome.Agrees] at hag1
+        | incomplete i1 =>
+          cases h2 : (p2 rest).out with
+          | incomplete i2 => left; simp [Outcome.Agrees, Outcome.isOk]
+          | ok v k => rw [h1, h2] at hag1; simp [Outcome.Agrees] at hag1
+          | error k => rw [h1, h2] at hag1; simp [Outcome.Agrees] at hag1
+          | crash k => rw [h1, h2] at hag1; simp [Outcome.Agrees] at hag1
+        | error e1 =>
+          cases h2 : (p2 rest).out with
+          | error e2 =>
+            rw [h1, h2] at hag1
+            left; simp [Outcome.Agrees, Outcome.isOk] at hag1 ⊢; exact hag1
+          | ok v k => rw [h1, h2] at hag1; simp [Outcome.Agrees] at hag1
+          | incomplete k => rw [h1, h2] at hag1; simp [Outcome.Agrees] at hag1
+          | crash k => rw [h1, h2] at hag1; simp [Outcome.Agrees] at hag1
+        | crash c1 =>
+          cases h2 : (p2 rest).out with
+          | crash c2 =>
+            rw [h1, h2] at hag1
+            left; simp [Outcome.Agrees, Outcome.isOk] at hag1 ⊢; exact hag1
+          | ok v k => rw [h1, h2] at hag1; simp [Outcome.Agrees] at hag1
+          | incomplete k => rw [h1, h2] at hag1; simp [Outcome.Agrees] at hag1
+          | error k => rw [h1, h2] at hag1; simp [Outcome.Agrees] at hag1
+
+theorem parseLine_agree (mk : Bytes → Val) (hmk : ∀ s, (mk s).lossy = mk (utf8Lossy s)) (bs : Bytes) :
+    (parseLine codec1 mk bs).out.Agrees (parseLine codec2 mk bs).out := by
+  unfold parseLine
+  show (match findCrlf2 bs with | none => _ | some pos => _ : Res).out.Agrees
+    (match findCrlf2 bs with | none => _ | some pos => _ : Res).out
+  cases findCrlf2 bs with
+  | none => simp [Outcome.Agrees]
+  | some pos =>
+    simp only []
+    cases field bs pos with
+    | none => simp [Outcome.Agrees]
+    | some s => simp [Outcome.Agrees, codec1, codec2, hmk]
+
+theorem parseInt_eq (bs : Bytes) : parseInt codec1 bs = parseInt codec2 bs := rfl
+theorem parseBulk_eq (bs : Bytes) : parseBulk codec1 bs = parseBulk codec2 bs := rfl
+
+theorem parseInt_agree (bs : Bytes) : (parseInt codec1 bs).out.Agrees (parseInt codec2 bs).out := by
+  rw [← parseInt_eq]
+  unfold parseInt
+  repeat' (first | (simp [Outcome.Agrees, Val.lossy]; done) | split)
+
+theorem parseBulk_agree (bs : Bytes) : (parseBulk codec1 bs).out.Agrees (parseBulk codec2 bs).out := by
+  rw [← parseBulk_eq]
+  unfold parseBulk
+  repeat' (first | (simp [Outcome.Agrees, Val.lossy]; done) | split | (simp only []))
+
+theorem parseArray_agree (mem : Nat) (p1 p2 : Bytes → Res)
+    (hag : ∀ s, Small s → Agree (p1 s) (p2 s))
+    (hc2 : ∀ s, Small s → ConsumedOK (p2 s) s)
+    (h2nil : (p2 []).out.isIncomplete = true)
+    (bs : Bytes) (hs : Small bs) :
+    Agree (parseArray codec1 mem p1 bs) (parseArray codec2 mem p2 bs) := by
+  unfold Agree parseArray
+  simp only [show codec1.findCrlf = findCrlf2 from rfl, show codec2.findCrlf = findCrlf2 from rfl,
+    show codec1.emptyCheck = true from rfl, show codec2.emptyCheck = false from rfl]
+  cases hpos : findCrlf2 bs with
+  | none => left; simp [Outcome.Agrees]
+  | some pos =>
+    have hb := findCrlf2_bound bs pos hpos
+    simp only []
+    cases field bs pos with
+    | none => left; simp [Outcome.Agrees]
+    | some s =>
+      simp only []
+      cases hn : parseI64 s with
+      | none => left; simp [Outcome.Agrees]
+      | some n =>
+        simp only []
+        have hr := parseI64_range s n hn
+        by_cases h1 : n = -1
+        · left; simp [h1, Outcome.Agrees, Val.lossy]
+        · simp only [h1, if_false]
+          by_cases hneg : n < 0
+          · right
+            have : codec1.arrayNegCheck = true ∧ n < 0 := ⟨rfl, hneg⟩
+            simp [this]
+          · have e1 : ¬ (codec1.arrayNegCheck = true ∧ n < 0) := fun h => hneg h.2
+            have e2 : ¬ (codec2.arrayNegCheck = true ∧ n < 0) := fun h => hneg h.2
+            simp only [e1, e2, if_false]
+            have hp2 : ∀ r, preReq codec2 n r = 0 := by intro r; simp [preReq, codec2]
+            have hp1 := preReq_capped_le codec1 rfl n (bs.length - (pos + 2))
+            have c1 : ¬ preReq codec1 n (bs.length - (pos + 2)) > isizeMax := by
+              unfold Small at hs; unfold isizeMax; omega
+            have c2 : ¬ (¬ codec1.capPrealloc = true ∧ preReq codec1 n (bs.length - (pos + 2)) ≥ mem ∧
+                preReq codec1 n (bs.length - (pos + 2)) ≠ 0) := by simp [codec1]
+            have c3 : ¬ preReq codec2 n (bs.length - (pos + 2)) > isizeMax := by rw [hp2]; unfold isizeMax; omega
+            have c4 : ¬ (¬ codec2.capPrealloc = true ∧ preReq codec2 n (bs.length - (pos + 2)) ≥ mem ∧
+                preReq codec2 n (bs.length - (pos + 2)) ≠ 0) := by rw [hp2]; simp
+            simp only [c1, c2, c3, c4, if_false]
+            have hel := elems_agree p1 p2 hag hc2 h2nil n.toNat (bs.drop (pos + 2)) (hs.drop _)
+            cases he1 : elems p1 true n.toNat (bs.drop (pos + 2)) with
+            | mk x1 a1 =>
+              cases he2 : elems p2 false n.toNat (bs.drop (pos + 2)) with
+              | mk x2 a2 =>
+                rw [he1, he2] at hel
+                unfold ElemsAgree at hel
+                cases x1 with
+                | ok vs1 k1 =>
+                  cases x2 with
+                  | ok vs2 k2 =>
+                    simp only [reduceCtorEq, or_false] at hel
+                    left
+                    simp only [Outcome.Agrees, Val.lossy]
+                    exact ⟨by rw [hel.1], by rw [hel.2]⟩
+                  | stop o2 => simp at hel
+                | stop o1 =>
+                  cases x2 with
+                  | ok vs2 k2 =>
+                    cases hel with
+                    | inl h => simp at h
+                    | inr h => right; simp at h; simp [h]
+                  | stop o2 =>
+                    cases hel with
+                    | inl h => left; exact h.1
+                    | inr h => right; simp at h; simp [h]
+
+/-- THE TWO DECODERS AGREE (after the fixes): same value up to the lossy UTF-8 conversion of line
+    texts with the same consumed count, both "more bytes needed", or the same protocol error —
+    except where codec 1 rejects a negative array length that codec 2 reads as an empty array -/
+theorem parseD_agree (mem : Nat) :
+    ∀ (d nest : Nat) (bs : Bytes), nest ≤ maxNesting → maxNesting + 1 ≤ d + nest → Small bs →
+      Agree (parseD codec1 mem d nest bs) (parseD codec2 mem d nest bs) := by
+  intro d
+  induction d with
+  | zero => intro nest bs h1 h2 _; omega
+  | succ d ih =>
+    intro nest bs hn hd hs
+    cases bs with
+    | nil => left; simp [parseD, Outcome.Agrees]
+    | cons t rest =>
+      unfold parseD
+      by_cases h1 : t = 43
+      · simp only [h1, if_true]
+        exact Or.inl (parseLine_agree Val.simple (fun _ => rfl) _)
+      · simp only [h1, if_false]
+        by_cases h2 : t = 45
+        · simp only [h2, if_true]
+          exact Or.inl (parseLine_agree Val.error (fun _ => rfl) _)
+        · simp only [h2, if_false]
+          by_cases h3 : t = 58
+          · simp only [h3, if_true]
+            exact Or.inl (parseInt_agree _)
+          · simp only [h3, if_false]
+            by_cases h4 : t = 36
+            · simp only [h4, if_true]
+              exact Or.inl (parseBulk_agree _)
+            · simp only [h4, if_false]
+              by_cases h5 : t = 42
+              · simp only [h5, if_true]
+                have htd : tooDeep codec1 nest = tooDeep codec2 nest := rfl
+                rw [← htd]
+                by_cases h6 : tooDeep codec1 nest = true
+                · left; simp [h6, Outcome.Agrees]
+                · simp only [h6, if_false]
+                  have hlt : nest < maxNesting := by
+                    unfold tooDeep at h6
+                    simp [codec1] at h6
+                    exact h6
+                  refine parseArray_agree mem _ _ (fun s hss => ih (nest + 1) s (by omega) (by omega) hss)
+                    (parseD_consumed codec2 codec2_good mem d (nest + 1)) ?_ _ hs
+                  have : 1 ≤ d := by omega
+                  cases d with
+                  | zero => omega
+                  | succ d' => simp [parseD, Outcome.isIncomplete]
+              · left; simp [h5, Outcome.Agrees]
+
 end RedisVerif.Resp
